@@ -581,6 +581,22 @@ def copy_checks(spec, style, props):
             x.geoshapes[0].set_dt(EPOCH + timedelta(days=50))
         if snapshot(s) != before:
             fails.append((nm + '_isolated', f'mutating the {nm} changed the original'))
+    # equal => same hash must also hold for an object that was ALREADY hashed (used as a key) before its members were
+    # updated in place: compare with a freshly built twin that went through the same updates but was never hashed before
+    if hasattr(s, 'geoshapes') and s.geoshapes:
+        a = build(spec, style, props=_copy.deepcopy(props))
+        b = build(spec, style, props=_copy.deepcopy(props))
+        guarded(lambda: ({a: 1}, hash(a), hash(a.copy())))
+        for y in (a, b):
+            for i_, g in enumerate(y.geoshapes):
+                g.set_dt(EPOCH + timedelta(days=60 + i_))
+        ra = guarded(lambda: (a == b, b == a, hash(a) == hash(b), hash(a.copy()) == hash(a), len({a, b})))
+        if ra[0] != 'Ok':
+            fails.append(('eq_hash_after_member_updates', f'raised {ra[1]}'))
+        elif ra[1][0] and not (ra[1][2] and ra[1][3] and ra[1][4] == 1):
+            fails.append(('eq_hash_after_member_updates',
+                          f'a multi-shape hashed before its members were re-timed in place equals its never-hashed twin but '
+                          f'(hash equal, copy hash equal, set size) = {ra[1][2:]}'))
     return cases, fails
 
 
